@@ -115,7 +115,9 @@ func limitOps(l core.Limit) []op {
 func scenarios() map[string]func(seed uint64, nG, iters int) {
 	m := map[string]func(uint64, int, int){}
 	// ---- limits
-	m["limit.AIMD"] = func(s uint64, g, n int) { hammer("limit.AIMD", s, g, n, limitOps(limit.NewAIMDLimit("x", 10, 0.9, 1, nil))) }
+	m["limit.AIMD"] = func(s uint64, g, n int) {
+		hammer("limit.AIMD", s, g, n, limitOps(limit.NewAIMDLimit("x", 10, 0.9, 1, nil)))
+	}
 	m["limit.Vegas"] = func(s uint64, g, n int) {
 		hammer("limit.Vegas", s, g, n, limitOps(limit.NewDefaultVegasLimitWithLimit("x", 10, nil, nil)))
 	}
@@ -131,7 +133,9 @@ func scenarios() map[string]func(seed uint64, nG, iters int) {
 	m["limit.Gradient2"] = func(s uint64, g, n int) {
 		hammer("limit.Gradient2", s, g, n, limitOps(limit.NewDefaultGradient2Limit("x", nil, nil)))
 	}
-	m["limit.Settable"] = func(s uint64, g, n int) { hammer("limit.Settable", s, g, n, limitOps(limit.NewSettableLimit("x", 10, nil))) }
+	m["limit.Settable"] = func(s uint64, g, n int) {
+		hammer("limit.Settable", s, g, n, limitOps(limit.NewSettableLimit("x", 10, nil)))
+	}
 	m["limit.Fixed"] = func(s uint64, g, n int) { hammer("limit.Fixed", s, g, n, limitOps(limit.NewFixedLimit("x", 10, nil))) }
 	m["limit.Windowed"] = func(s uint64, g, n int) {
 		w, _ := limit.NewWindowedLimit("w", 1e8, 1e8, 10, 0, limit.NewAIMDLimit("x", 10, 0.9, 1, nil), nil)
@@ -371,9 +375,9 @@ func scenarios() map[string]func(seed uint64, nG, iters int) {
 	regOps := func(mr core.MetricRegistry) []op {
 		ids := []string{"a", "b", "c", "d", "e", "f"}
 		return []op{
-			{"RegisterDistribution+AddSample", func(r *rand.Rand) { mr.RegisterDistribution("d."+ids[r.IntN(6)]).AddSample(1) }},
-			{"RegisterTiming+AddSample", func(r *rand.Rand) { mr.RegisterTiming("t."+ids[r.IntN(6)]).AddSample(1) }},
-			{"RegisterCount+AddSample", func(r *rand.Rand) { mr.RegisterCount("c."+ids[r.IntN(6)]).AddSample(1) }},
+			{"RegisterDistribution+AddSample", func(r *rand.Rand) { mr.RegisterDistribution("d." + ids[r.IntN(6)]).AddSample(1) }},
+			{"RegisterTiming+AddSample", func(r *rand.Rand) { mr.RegisterTiming("t." + ids[r.IntN(6)]).AddSample(1) }},
+			{"RegisterCount+AddSample", func(r *rand.Rand) { mr.RegisterCount("c." + ids[r.IntN(6)]).AddSample(1) }},
 			{"RegisterGauge", func(r *rand.Rand) { mr.RegisterGauge("g."+ids[r.IntN(6)], func() (float64, bool) { return 1, true }) }},
 			{"Start", func(*rand.Rand) { mr.Start() }},
 			{"Stop", func(*rand.Rand) { mr.Stop() }},
@@ -445,6 +449,27 @@ func scenarios() map[string]func(seed uint64, nG, iters int) {
 		st := strategy.NewSimpleStrategyWithMetricRegistry(4, mr)
 		dl, _ := limiter.NewDefaultLimiter(l, 1, 1, 0, 10, st, limit.NoopLimitLogger{}, mr)
 		useLimiter("integration.limiter+registry", dl, op{"Limit.String", func(*rand.Rand) { keep(l.String()) }})(s, g, n/2+1)
+		mr.Stop()
+	}
+	// ---- blocking stacks whose gauges are polled by a started registry while callers enqueue, time out and are handed tokens
+	m["integration.queue+registry"] = func(s uint64, g, n int) {
+		for _, o := range []limiter.QueueOrdering{limiter.OrderingFIFO, limiter.OrderingLIFO} {
+			mr, _ := gometrics.NewGoMetricsMetricRegistry(gom.NewRegistry(), "", "p", 50*time.Microsecond)
+			mr.Start()
+			q := limiter.NewQueueBlockingLimiterFromConfig(mkDefault(1, nil), limiter.QueueLimiterConfig{Ordering: o, MaxBacklogSize: 4,
+				MaxBacklogTimeout: time.Millisecond, BacklogEvictDoneCtx: s%2 == 0, MetricRegistry: mr})
+			useLimiter("integration.queue+registry", q)(s, g, n/6+1)
+			mr.Stop()
+		}
+	}
+	m["integration.pool+registry"] = func(s uint64, g, n int) {
+		mr, _ := gometrics.NewGoMetricsMetricRegistry(gom.NewRegistry(), "", "p", 50*time.Microsecond)
+		mr.Start()
+		fp, err := pool.NewFixedPool("p", pool.OrderingLIFO, 2, -1, -1, -1, -1, 3, time.Millisecond, nil, mr)
+		if err != nil {
+			panic(err)
+		}
+		useLimiter("integration.pool+registry", fp)(s, g, n/6+1)
 		mr.Stop()
 	}
 	return m
